@@ -38,7 +38,7 @@ def make_worker(tier):
                 if len(d) > 600:
                     continue
                 fe = features.features(b.mod, t, v)
-                mask = 'uper,oer' if 'has_SET' in fe else ('oer' if 'k:ObjectDescriptor' in fe else '')
+                mask = ''   # (types without a PER/OER codec used to crash here; repaired, so nothing is masked any more)
                 msuf = (' mask=' + mask) if mask else ''
                 for mode, cmdline in (('valid', 'encapi %s %s %s%s' % (c.name, d.hex(), 'vpz' + ('2' if tier != 'quick' and len(d) < 40 else ''), msuf)),
                                       ('corrupt', 'xform %s %s c%s' % (c.name, d.hex(), msuf))):
